@@ -1,7 +1,8 @@
 (* Non-vacuity for C01: on the reachable state of Witness/C08.v ("aéあ😀" rewritten to "ééx😀😀" by three batches) a path
    with an empty range, a range covering a deleted prefix and a range that is empty in the original partitions the input. *)
 From Coq Require Import List NArith Arith.
-From SudachiVerif Require Witness.C01Pipeline.   (* non-vacuity of the end-to-end pipeline theorem *)
+From SudachiVerif Require Witness.C01Pipeline.
+From SudachiVerif Require Witness.C01EndToEnd.   (* non-vacuity of C01_tokenizer_end_to_end *)   (* non-vacuity of the end-to-end pipeline theorem *)
 From SudachiVerif Require Import Model.Buffer Proofs.BufferProofs Properties.C01 Witness.C08.
 Import ListNotations.
 Open Scope nat_scope.
